@@ -32,25 +32,28 @@ type LoopSpec struct {
 }
 
 type Contract struct {
-	Name     string // function name relative to its package, e.g. "(*Entry).Info"
-	PkgPath  string
-	External bool // declared with "ext": assumed, body never verified
-	Trusted  bool // in-package function whose contract is assumed (listed in evidence)
-	Inline   bool
-	Requires []*Clause
-	Ensures  []*Clause
-	Assigns  []*Clause
+	Name       string // function name relative to its package, e.g. "(*Entry).Info"
+	PkgPath    string
+	External   bool // declared with "ext": assumed, body never verified
+	Trusted    bool // in-package function whose contract is assumed (listed in evidence)
+	Inline     bool
+	Requires   []*Clause
+	Ensures    []*Clause
+	Assigns    []*Clause
 	HasAssigns bool
-	Effects  []*Effect
-	Panics   *Clause // "panics when e"
-	NoReturn bool
-	Loops    map[int]*LoopSpec
-	Props    []string
-	Asserts  []*AtClause
-	Equiv    string
-	Fd       string // "entry" => fd == 0
-	File     string
-	Line     int
+	AssignsAll bool
+	Effects    []*Effect
+	Panics     *Clause // "panics when e"
+	Exits      *Clause // "exits when e"
+	MayPanic   bool    // panic/exit behaviour unspecified
+	NoReturn   bool
+	Loops      map[int]*LoopSpec
+	Props      []string
+	Asserts    []*AtClause
+	Equiv      string
+	Fd         string // "entry" => fd == 0
+	File       string
+	Line       int
 }
 
 // AtClause: assertion attached to a program point: "at panic", "at exit", "at call <callee>".
@@ -139,6 +142,10 @@ func ParseContractFile(path, pkgPath string) ([]*Contract, error) {
 			if strings.TrimSpace(rest) == "nothing" {
 				continue
 			}
+			if strings.TrimSpace(rest) == "everything" {
+				cur.AssignsAll = true
+				continue
+			}
 			for _, it := range splitTop(rest) {
 				cl, err := parseClause(path, lineNo, it)
 				if err != nil {
@@ -156,7 +163,9 @@ func ParseContractFile(path, pkgPath string) ([]*Contract, error) {
 				return nil, fmt.Errorf("%s:%d: %v", path, lineNo, err)
 			}
 			cur.Effects = append(cur.Effects, &Effect{Target: strings.TrimSpace(parts[0]), Src: rest, Expr: e})
-		case "panics":
+		case "maypanic":
+			cur.MayPanic = true
+		case "panics", "exits":
 			w, r2 := splitWord(strings.TrimSpace(rest))
 			lbl := ""
 			if strings.HasPrefix(w, "[") {
@@ -164,13 +173,17 @@ func ParseContractFile(path, pkgPath string) ([]*Contract, error) {
 				w, r2 = splitWord(r2)
 			}
 			if w != "when" {
-				return nil, fmt.Errorf("%s:%d: expected 'panics when'", path, lineNo)
+				return nil, fmt.Errorf("%s:%d: expected '%s when'", path, lineNo, kw)
 			}
 			cl, err := parseClause(path, lineNo, lbl+r2)
 			if err != nil {
 				return nil, err
 			}
-			cur.Panics = cl
+			if kw == "panics" {
+				cur.Panics = cl
+			} else {
+				cur.Exits = cl
+			}
 		case "noreturn":
 			cur.NoReturn = true
 		case "loop":
@@ -286,6 +299,9 @@ func (c *Contract) allClauses() []*Clause {
 	out = append(out, c.Ensures...)
 	if c.Panics != nil {
 		out = append(out, c.Panics)
+	}
+	if c.Exits != nil {
+		out = append(out, c.Exits)
 	}
 	for _, l := range c.Loops {
 		out = append(out, l.Invariants...)
